@@ -64,7 +64,7 @@ pub fn gen_prog(u: &mut Chooser, ctx: &[(String, V)]) -> E {
     let idx = |a: E, i: i64| E::Index(b(a), b(E::Lit(V::Int(i))));
     let mac = |m: Mac, r: E, body: E| E::Macro(m, b(r), "x".into(), vec![body]);
     let x = || E::var("x");
-    match u.below(31) {
+    match u.below(37) {
         0 => add(l(u), lit_l(u)),
         1 => add(l(u), l(u)),
         2 => {
@@ -104,6 +104,14 @@ pub fn gen_prog(u: &mut Chooser, ctx: &[(String, V)]) -> E {
         26 => E::Macro(Mac::Map, b(E::var("ll")), "z".into(), vec![E::bin(Op::Add, E::var("z"), E::var("y"))]),
         27 => E::Macro(Mac::Map, b(l(u)), "x".into(), vec![E::Macro(Mac::Map, b(l(u)), "y".into(), vec![E::bin(Op::Add, E::var("x"), E::var("y"))])]),
         28 => E::List(vec![E::var("x"), E::var("y")]),
+        // a freshly concatenated (over-allocated) buffer bound to a name and extended twice
+        29 => E::Macro(Mac::Map, b(E::List(vec![add(s(u), s(u))])), "x".into(), vec![E::List(vec![add(E::var("x"), E::Lit(V::s("c"))), add(E::var("x"), E::Lit(V::s("d")))])]),
+        30 => E::Macro(Mac::Map, b(E::List(vec![add(l(u), l(u))])), "x".into(), vec![E::List(vec![add(E::var("x"), E::List(vec![E::Lit(V::Int(1))])), add(E::var("x"), E::List(vec![E::Lit(V::Int(2))]))])]),
+        // `acc` / `lacc` are context variables whose values came out of an earlier concatenation (spare capacity, shared)
+        31 => add(E::var("acc"), E::Lit(V::s("!"))),
+        32 => E::List(vec![add(E::var("acc"), E::Lit(V::s("c"))), add(E::var("acc"), E::Lit(V::s("d"))), E::var("acc")]),
+        33 => add(E::var("lacc"), E::List(vec![E::Lit(V::Int(7))])),
+        34 => E::List(vec![add(E::var("lacc"), E::var("lacc")), E::var("lacc")]),
         _ => {
             // a random typed program over the same context
             let vars: Vec<Var> = ctx
@@ -150,10 +158,25 @@ pub fn check_history(h: &History) -> Outcome {
             Err(p) => return fail(format!("compile `{src}` {}", p.short())),
         }
     }
-    let ctx = sut::ctx_with(&h.ctx);
+    // `acc` and `lacc` are bound to the *results* of concatenations executed beforehand: such values share their
+    // (over-allocated) buffers with whatever the host still holds
+    let mut ctx = sut::ctx_with(&h.ctx);
+    let mut model_ctx = h.ctx.clone();
+    let mut seed_values: Vec<(String, Value, V)> = vec![];
+    for (name, src) in [("acc", "s0 + s1 + 'x'"), ("lacc", "l0 + l1 + [0]")] {
+        if let Ok(Ok(p)) = sut::compile(src) {
+            if let Ok(Ok(v)) = guard(|| p.execute(&ctx)) {
+                let m = from_cel(&v);
+                ctx.add_variable_from_value(name, v.clone());
+                model_ctx.push((name.to_string(), m.clone()));
+                seed_values.push((format!("the host's copy of {name}"), v, m));
+            }
+        }
+    }
+    let h_ctx = model_ctx;
     let mut first: Vec<Option<R>> = vec![None; progs.len()];
     // every value obtained so far (real interpreter values sharing Arcs with whatever produced them) with its deep model copy
-    let mut kept: Vec<(String, Value, V)> = vec![];
+    let mut kept: Vec<(String, Value, V)> = seed_values;
     let mut reexec = 0;
     let mut concat_reexec_with_kept = false;
     for (k, st) in h.steps.iter().enumerate() {
@@ -166,16 +189,16 @@ pub fn check_history(h: &History) -> Outcome {
                 };
                 let r = sut::from_result(res.clone());
                 // every execution, first or repeated, must be what the program yields "alone": the reference evaluator's result
-                let mut st = crate::model::eval::St::new(&h.ctx, vec![]);
+                let variants = crate::props::c03::model_variants(&h.programs[*i], &h_ctx, &vec![], false);
                 let mut order_dependent = false;
-                match crate::model::eval::eval(&h.programs[*i], &mut st) {
+                match &variants[0].0 {
                     Err(crate::model::eval::Stop::Unsupported(why)) => {
                         // ranging over a map with several entries: results may legitimately differ between executions
                         // ("up to the unspecified iteration order of maps")
                         order_dependent = why.contains("multi-entry map");
                     }
                     model => {
-                        if !crate::props::c03::agree(&model, &r) {
+                        if !variants.iter().any(|(m, _)| crate::props::c03::agree(m, &r)) {
                             return fail(format!("step {k}: `{src}` yields {} in this history; executed alone against this context the reference semantics give {:?} (earlier steps: {:?})", r.show(), model, &h.steps[..k]));
                         }
                     }
@@ -185,7 +208,7 @@ pub fn check_history(h: &History) -> Outcome {
                     Some(f) => {
                         reexec += 1;
                         if !order_dependent && !same_result(f, &r) {
-                            return fail(format!("step {k}: executing `{src}` again against the unchanged context gives {}, the first execution gave {} (context {})", r.show(), f.show(), sut::trunc(&format!("{:?}", h.ctx), 500)));
+                            return fail(format!("step {k}: executing `{src}` again against the unchanged context gives {}, the first execution gave {} (context {})", r.show(), f.show(), sut::trunc(&format!("{:?}", h_ctx), 500)));
                         }
                         let appends = h.programs[*i].any(&|x| matches!(x, E::Bin(Op::Add, ..) | E::Macro(..)));
                         if appends && !kept.is_empty() {
@@ -199,7 +222,7 @@ pub fn check_history(h: &History) -> Outcome {
                 }
             }
             Step::Snapshot(vi) => {
-                let (name, _) = &h.ctx[*vi];
+                let (name, _) = &h_ctx[*vi];
                 if let Ok(v) = ctx.get_variable(name.as_str()) {
                     let m = from_cel(&v);
                     kept.push((format!("get_variable({name}) at step {k}"), v, m));
@@ -207,7 +230,7 @@ pub fn check_history(h: &History) -> Outcome {
             }
         }
         // invariants after every step
-        for (name, orig) in &h.ctx {
+        for (name, orig) in &h_ctx {
             match ctx.get_variable(name.as_str()) {
                 Ok(v) if same(&from_cel(&v), orig) => {}
                 other => return fail(format!("after step {k} ({st:?}) the context variable {name} reads {:?}, it was {orig:?} before the first execution; programs {:?}", other.as_ref().map(from_cel), progs.iter().map(|p| &p.0).collect::<Vec<_>>())),
@@ -380,7 +403,9 @@ pub fn run(r: &mut Runner) {
     // thread configurations: each of the 16 shard processes runs its share, so up to 16 x 16 threads contend for the cores
     // (oversubscription adds preemption points); a failing configuration is shrunk like any other case
     let cfgs = r.tier.n(13, 320);
+    r.shrink_budget = 40; // every shrink step runs up to 16 threads
     r.random("thread-stress", 6000, cfgs, gen_thread_case, check_threads);
+    r.shrink_budget = 3000;
     r.expect_class("concatenating-program-re-executed-with-kept-results", 1000);
     r.expect_class("threads-overlapped-on-a-program", 20);
 }
